@@ -150,6 +150,17 @@ class Interp(object):
         self.events = []
         self._const_cache = {}
         self.global_overrides = opts.get('globals', {})    # (module name, global name) -> value
+        # facts the caller assumes about symbols: [(Rat expr, signs)] / [('close', Rat expr, '0' | '+')]
+        for item in opts.get('presign', ()):
+            if item[0] == 'close':
+                sgn, key, _ = _canon_diff(item[1])
+                trace.signs['close:' + key] = frozenset(item[2])
+            else:
+                expr, signs = item
+                sgn, key, _ = _canon_diff(expr)
+                if sgn < 0:
+                    signs = ''.join({'-': '+', '+': '-', '0': '0'}[c] for c in signs)
+                trace.signs[key] = frozenset(signs)
 
     # ------------------------------------------------------------------ helpers
     def fresh(self, hint):
@@ -220,6 +231,9 @@ class Interp(object):
                 raise PyRaise('TypeError', 'ordering of complex numbers')
             x = c[0]
             return {'eq': x == 0, 'ne': x != 0, 'lt': x < 0, 'le': x <= 0, 'gt': x > 0, 'ge': x >= 0}[op]
+        ks = _known_sign(d)
+        if ks is not None:
+            return {'eq': False, 'ne': True, 'lt': ks < 0, 'le': ks < 0, 'gt': ks > 0, 'ge': ks > 0}[op]
         sgn, key, text = _canon_diff(d)
         if sgn < 0:
             op = {'lt': 'gt', 'le': 'ge', 'gt': 'lt', 'ge': 'le'}.get(op, op)
@@ -678,7 +692,7 @@ class Interp(object):
         if kind == 'class':
             return ClassRef(r[1])
         if kind == 'ext':
-            return ExtRef(r[1])
+            return bm.ext_value(r[1])
         if kind == 'const':
             mod, expr = r[1], r[2]
             ov = None
@@ -911,7 +925,7 @@ class Interp(object):
                 raise PyRaise(o.raises_on_attr, '%s.%s' % (o.what, name))
             raise Undecidable('attribute %s of %r' % (name, o))
         if isinstance(o, ExtRef):
-            return ExtRef(o.dotted + '.' + name)
+            return bm.ext_value(o.dotted + '.' + name)
         if isinstance(o, ClassRef):
             if name in o.info.methods:
                 m = o.info.methods[name]
@@ -1129,6 +1143,24 @@ def _negate(t):
 
 def _numlike(v):
     return isinstance(v, (Rat, int, Fr, float, complex, bool))
+
+
+def _known_sign(d):
+    """sign of a Rat that is a single real term in symbols declared positive (poly.POSITIVE), else None"""
+    from . import poly
+    if not d.is_poly() or len(d.num.t) != 1:
+        return None
+    (m, c), = d.num.t.items()
+    if c[1] != 0 or not m:
+        return None
+    for a, e in m:
+        at = poly.atom_of(a)
+        if a in poly.POSITIVE:
+            continue
+        if at.fn == 'sqrt' and e % 2 == 0:
+            continue
+        return None
+    return 1 if c[0] > 0 else -1
 
 
 def _canon_diff(d):
